@@ -1021,3 +1021,10 @@ mod test {
         println!("bytes_sent {bytes_sent}");
     }
 }
+
+/// Verification harness with access to the private noise sampler (`ipa-verif` feature only).
+#[cfg(all(test, feature = "ipa-verif"))]
+#[allow(clippy::all, clippy::pedantic, dead_code, unused_imports)]
+pub(crate) mod verif_dp {
+    include!(concat!(env!("IPA_VERIF_DIR"), "/harness/dp.rs"));
+}
